@@ -706,7 +706,7 @@ type tierParams struct {
 
 func params(thorough bool) tierParams {
 	if thorough {
-		return tierParams{ns: []int{3, 4, 5, 6, 7, 8, 9, 10}, seeds: 2, supBound: 2, supRev: true,
+		return tierParams{ns: []int{3, 4, 5, 6, 7}, seeds: 2, supBound: 2, supRev: true,
 			genBound: func(int) int { return 1 },
 			msgsFor:  func(int, int) []int { return []int{0, 1} }}
 	}
@@ -790,7 +790,7 @@ func run(c *fw.Ctx) {
 		phases = 2
 	}
 	// phase 0: everything, supersets with deviation bound 1 in insertion order of the member index;
-	// phase 1 (thorough): supersets again with the larger deviation bound and in reverse insertion order.
+	// phase 1 (thorough): supersets again with the larger deviation bound, and in reverse insertion order (bound 1).
 	for phase := 0; phase < phases; phase++ {
 		for _, n := range tp.ns {
 			for seed := 0; seed < tp.seeds; seed++ {
@@ -831,13 +831,15 @@ func run(c *fw.Ctx) {
 										}
 										ks := g.kase("recover", mi)
 										ks.Ord = apply(sub, p)
+										bound := 1 // reverse insertion order: one deviation
 										if pi == 0 {
 											if tp.supBound < 2 {
 												continue
 											}
+											bound = tp.supBound
 											ks.minDev = 2 // <= 1 deviation was phase 0
 										}
-										explore(c, g, ks, tp.supBound)
+										explore(c, g, ks, bound)
 									}
 								}
 							}
